@@ -219,6 +219,12 @@ func c19(c *ctx) {
 		c.o.close()
 		os.Exit(3)
 	}
+	// rates up to MaxInt64 (own subprocess)
+	if err := runChild(c, "C19huge"); err != nil {
+		fmt.Fprintln(os.Stderr, err)
+		c.o.close()
+		os.Exit(3)
+	}
 	// the allowance across a disconnect / reconnect of the user (own subprocess)
 	if err := runChild(c, "C19re"); err != nil {
 		fmt.Fprintln(os.Stderr, err)
